@@ -208,6 +208,14 @@ pub fn run(name: &str) -> Option<bool> {
             };
             unsigned("A") || unsigned("B")
         }
+        // fixed: a negative value reference used as SIZE bound became a bound near 2^64
+        "negative_size_reference" => {
+            use asn1rs::model::parse::Tokenizer;
+            use asn1rs::model::Model;
+            let text = "M DEFINITIONS AUTOMATIC TAGS ::= BEGIN neg INTEGER ::= -1 A ::= OCTET STRING (SIZE(0..neg)) END";
+            let r = Model::try_from(Tokenizer::default().parse(text)).unwrap().try_resolve();
+            r.is_ok()
+        }
         _ => return None,
     })
 }
